@@ -1,6 +1,8 @@
 //! Shared machinery: run context, reports, evidence files, known findings, replay files.
 
 pub mod capture;
+pub mod hist;
+pub mod hooks;
 pub mod proc;
 pub mod sandbox;
 
